@@ -14,6 +14,7 @@ package main
 import (
 	"bufio"
 	"bytes"
+	"context"
 	"encoding"
 	"encoding/json"
 	"flag"
@@ -26,6 +27,7 @@ import (
 	"sort"
 	"strings"
 	"sync"
+	"syscall"
 
 	"github.com/grafana/cog/verifapi"
 	"gopkg.in/yaml.v3"
@@ -370,6 +372,7 @@ type c20Case struct {
 	} `json:"leaf"`
 	Inj       []int  `json:"inj"`
 	Style     string `json:"style"`
+	Form      string `json:"form"`
 	Pos       int    `json:"pos"`
 	NPos      int    `json:"npos"`
 	ExpL      bool   `json:"expl"`
@@ -699,6 +702,9 @@ func (r *renderer) build(c *c20Case, i int, injs *[]injection) any {
 			m[c.Leaf.K] = r.valueFor(n, c.Leaf.K, 0)
 		}
 	}
+	if last && c.Form == "null" {
+		return nil
+	}
 	if n != nil && n.Kind == "map" {
 		r.companions(m, n, 0)
 	}
@@ -760,6 +766,11 @@ func (r *renderer) tree(v any, at []string, ldr string, out *[]treeNode) {
 		}
 		for _, e := range x {
 			r.tree(e, append(append([]string{}, at...), "[]"), el, out)
+		}
+	case nil:
+		// a null entry of a rule list is an entry without keys (`- ~`, a dangling `-`)
+		if isRuleList(r.file, at) {
+			*out = append(*out, treeNode{At: append([]string{}, at...), Keys: []string{}, Ldr: ldr})
 		}
 	}
 }
@@ -838,7 +849,97 @@ type c20Record struct {
 	Nodes  []treeNode  `json:"nodes"`
 	Inj    []injection `json:"inj"`
 	Loader verdict     `json:"loader"`
+	Routes []c20Route  `json:"routes"`
 	Stale  []string    `json:"stale,omitempty"`
+}
+
+// route: the same document through another entry point by which cog itself reaches the loader
+type c20Route struct {
+	Name string `json:"name"`
+	verdict
+}
+
+const c20TinySchema = `{"$schema":"http://json-schema.org/draft-07/schema#","$ref":"#/definitions/Thing","definitions":{"Thing":{"type":"object","properties":{"name":{"type":"string"}}}}}`
+
+// scaffold writes, once per scratch directory, the fixed files of the pipeline routes
+func c20Scaffold(tmp string) {
+	if _, err := os.Stat(filepath.Join(tmp, "schema.json")); err == nil {
+		return
+	}
+	must := func(err error) {
+		if err != nil {
+			panic(err)
+		}
+	}
+	must(os.WriteFile(filepath.Join(tmp, "schema.json"), []byte(c20TinySchema), 0o600))
+	must(os.MkdirAll(filepath.Join(tmp, "veneersdir"), 0o700))
+	input := "  - jsonschema:\n      path: " + filepath.Join(tmp, "schema.json") + "\n      package: thing\n"
+	must(os.WriteFile(filepath.Join(tmp, "route-common.yaml"),
+		[]byte("inputs:\n"+input+"transformations:\n  schemas:\n    - "+filepath.Join(tmp, "passes.yaml")+"\n"), 0o600))
+	must(os.WriteFile(filepath.Join(tmp, "route-input.yaml"),
+		[]byte("inputs:\n"+input+"      transformations:\n        - "+filepath.Join(tmp, "passes.yaml")+"\n"), 0o600))
+	must(os.WriteFile(filepath.Join(tmp, "route-builders.yaml"),
+		[]byte("transformations:\n  builders:\n    - "+filepath.Join(tmp, "veneersdir")+"\noutput:\n  builders: true\n"), 0o600))
+}
+
+func c20Guarded(f func() error) (v verdict) {
+	defer func() {
+		if rec := recover(); rec != nil {
+			v = verdict{Class: "panic", Err: fmt.Sprint(rec)}
+		}
+	}()
+	return classifyErr(f())
+}
+
+// runRoutes drives the document through the file-name based entry points the pipeline really uses:
+//
+//	compiler: CompilerLoader.PassesFrom(files); a pipeline whose transformations.schemas names the file
+//	          (Pipeline.LoadSchemas); a pipeline whose inputs[].jsonschema.transformations names it
+//	veneers:  a pipeline whose transformations.builders names the directory holding the file
+//	          (Pipeline.ContextForLanguage, which loads the veneers before applying them)
+//
+// A verdict is only judged when it is about keys / empty rules (classifyErr); anything the pipeline reports
+// after the files were decoded is not.
+func c20RunRoutes(file string, doc []byte, tmp string) []c20Route {
+	routes := []c20Route{}
+	switch file {
+	case "compiler":
+		c20Scaffold(tmp)
+		p := filepath.Join(tmp, "passes.yaml")
+		if err := os.WriteFile(p, doc, 0o600); err != nil {
+			panic(err)
+		}
+		routes = append(routes, c20Route{"PassesFrom", c20Guarded(func() error {
+			_, err := verifapi.NewCompilerLoader().PassesFrom([]string{p})
+			return err
+		})})
+		for _, name := range []string{"route-common.yaml", "route-input.yaml"} {
+			name := name
+			routes = append(routes, c20Route{"pipeline:" + map[string]string{"route-common.yaml": "transformations.schemas", "route-input.yaml": "inputs[].transformations"}[name],
+				c20Guarded(func() error {
+					pl, err := verifapi.PipelineFromFile(filepath.Join(tmp, name))
+					if err != nil {
+						return fmt.Errorf("route scaffold does not load: %w", err)
+					}
+					_, err = pl.LoadSchemas(context.Background())
+					return err
+				})})
+		}
+	case "veneers":
+		c20Scaffold(tmp)
+		if err := os.WriteFile(filepath.Join(tmp, "veneersdir", "veneers.yaml"), doc, 0o600); err != nil {
+			panic(err)
+		}
+		routes = append(routes, c20Route{"pipeline:transformations.builders", c20Guarded(func() error {
+			pl, err := verifapi.PipelineFromFile(filepath.Join(tmp, "route-builders.yaml"))
+			if err != nil {
+				return fmt.Errorf("route scaffold does not load: %w", err)
+			}
+			_, err = pl.ContextForLanguage(verifapi.NewGo(verifapi.GoConfig{}), nil)
+			return err
+		})})
+	}
+	return routes
 }
 
 func c20Run(args []string) int {
@@ -886,6 +987,11 @@ func c20Run(args []string) int {
 		panic(err)
 	}
 	// the loaders are pure functions of the file: run them on all cores, keep the order
+	var lim syscall.Rlimit
+	if syscall.Getrlimit(syscall.RLIMIT_NOFILE, &lim) == nil && lim.Cur < lim.Max {
+		lim.Cur = lim.Max
+		_ = syscall.Setrlimit(syscall.RLIMIT_NOFILE, &lim)
+	}
 	nw := runtime.NumCPU()
 	if nw > 8 {
 		nw = 8
@@ -900,7 +1006,11 @@ func c20Run(args []string) int {
 			if err := os.Mkdir(dir, 0o700); err != nil {
 				panic(err)
 			}
-			for i := wk; i < len(cases); i += nw {
+			for n, i := 0, wk; i < len(cases); n, i = n+1, i+nw {
+				if n%128 == 127 {
+					// CompilerLoader.PassesFrom opens the files it is given and never closes them: let the finalizers do it
+					runtime.GC()
+				}
 				c := cases[i]
 				r := &renderer{kl: kl, kp: kp, unknown: *unknown, file: c.File}
 				injs := []injection{}
@@ -928,6 +1038,7 @@ func emitRecord(enc *json.Encoder, r *renderer, rec *c20Record, tmp string) {
 	rec.Nodes = []treeNode{}
 	r.tree(rec.Doc, []string{}, r.kl[rec.File].Root, &rec.Nodes)
 	rec.Loader = runLoader(rec.File, y, tmp)
+	rec.Routes = c20RunRoutes(rec.File, y, tmp)
 	if err := enc.Encode(rec); err != nil {
 		panic(err)
 	}
@@ -1040,35 +1151,84 @@ func c20Real(args []string) int {
 	w := bufio.NewWriterSize(os.Stdout, 1<<20)
 	defer w.Flush()
 	enc := json.NewEncoder(w)
+	type realDoc struct {
+		file, origin string
+		text         []byte
+	}
+	docs := []realDoc{}
 	files, _ := filepath.Glob(filepath.Join(*repo, "config", "*.yaml"))
 	sort.Strings(files)
-	id := 0
 	for _, p := range files {
 		b, err := os.ReadFile(p)
 		if err != nil {
 			panic(err)
 		}
+		docs = append(docs, realDoc{"pipeline", "config/" + filepath.Base(p), b})
+	}
+	// YAML blocks of the documentation that name one of the published schemas (`# yaml-language-server: $schema=...`):
+	// they are presented to users as files that validate, so they must load as well
+	kinds := map[string]string{"pipeline.json": "pipeline", "compiler_passes.json": "compiler", "veneers.json": "veneers"}
+	reSchema := regexp.MustCompile(`yaml-language-server:\s*\$schema=\S*/schemas/(pipeline|compiler_passes|veneers)\.json`)
+	mds := []string{}
+	filepath.WalkDir(filepath.Join(*repo, "docs"), func(p string, d os.DirEntry, err error) error {
+		if err == nil && !d.IsDir() && strings.HasSuffix(p, ".md") {
+			mds = append(mds, p)
+		}
+		return nil
+	})
+	sort.Strings(mds)
+	for _, p := range mds {
+		b, err := os.ReadFile(p)
+		if err != nil {
+			continue
+		}
+		rel, _ := filepath.Rel(*repo, p)
+		lines := strings.Split(string(b), "\n")
+		for i := 0; i < len(lines); i++ {
+			t := strings.TrimSpace(lines[i])
+			if !strings.HasPrefix(t, "```") || !strings.Contains(strings.ToLower(t), "yaml") {
+				continue
+			}
+			indent := len(lines[i]) - len(strings.TrimLeft(lines[i], " \t"))
+			block := []string{}
+			start := i + 1
+			for i++; i < len(lines) && !strings.HasPrefix(strings.TrimSpace(lines[i]), "```"); i++ {
+				l := lines[i]
+				if len(l) >= indent {
+					l = l[indent:]
+				} else {
+					l = strings.TrimLeft(l, " \t")
+				}
+				block = append(block, l)
+			}
+			text := strings.Join(block, "\n")
+			if m := reSchema.FindStringSubmatch(text); m != nil {
+				docs = append(docs, realDoc{kinds[m[1]+".json"], fmt.Sprintf("%s:%d", rel, start+1), []byte(text)})
+			}
+		}
+	}
+	id := 0
+	for _, rd := range docs {
 		var raw any
-		if err := yaml.Unmarshal(b, &raw); err != nil {
+		if err := yaml.Unmarshal(rd.text, &raw); err != nil {
 			continue
 		}
 		doc := normalise(raw)
-		if _, ok := doc.(map[string]any); !ok {
+		if m, ok := doc.(map[string]any); !ok || len(m) == 0 {
 			continue
 		}
-		origin := "config/" + filepath.Base(p)
-		r := &renderer{kl: kl, kp: kp, unknown: *unknown, file: "pipeline"}
+		r := &renderer{kl: kl, kp: kp, unknown: *unknown, file: rd.file}
 		id++
-		emitRecord(enc, r, &c20Record{ID: id, Src: "real", File: "pipeline", Origin: origin, Doc: doc, Inj: []injection{}}, tmp)
+		emitRecord(enc, r, &c20Record{ID: id, Src: "real", File: rd.file, Origin: rd.origin, Doc: doc, Inj: []injection{}}, tmp)
 		sites := [][]any{}
 		mappingSites(doc, nil, &sites)
 		for _, site := range sites {
 			variant := deepCopy(doc)
 			at(variant, site).(map[string]any)[*unknown] = "x"
 			ap := abstractPath(site)
-			// loader / published node at the site, for the report
+			// loader node at the site, for the report
 			nodes := []treeNode{}
-			r.tree(variant, []string{}, kl["pipeline"].Root, &nodes)
+			r.tree(variant, []string{}, kl[rd.file].Root, &nodes)
 			ldr := ""
 			for _, n := range nodes {
 				if strings.Join(n.At, "|") == strings.Join(ap, "|") {
@@ -1076,7 +1236,7 @@ func c20Real(args []string) int {
 				}
 			}
 			id++
-			emitRecord(enc, r, &c20Record{ID: id, Src: "real", File: "pipeline", Origin: origin, Doc: variant,
+			emitRecord(enc, r, &c20Record{ID: id, Src: "real", File: rd.file, Origin: rd.origin, Doc: variant,
 				Inj: []injection{{At: ap, Key: *unknown, Ldr: ldr}}}, tmp)
 		}
 	}
